@@ -483,6 +483,56 @@ pub fn run_concurrently(pool: &[KeyInfo], scenarios: &[Scenario]) -> Vec<String>
     })
 }
 
+/// One scenario (without inspections), materialised once, verified by `threads` threads at the same time,
+/// `rounds` times each - all of them released together at the start of every round. Returns what a single
+/// verification answered beforehand, and every answer of the crowd that differs from it.
+pub fn run_crowd(pool: &[KeyInfo], s: &Scenario, threads: usize, rounds: usize) -> (String, Vec<String>) {
+    let tmp = tempfile::Builder::new().prefix("itv-e2e-crowd-").tempdir().unwrap();
+    let links = tmp.path().join("links");
+    write_dir_ordered(pool, &s.dir, &links, false);
+    let text = block_text(pool, &s.block);
+    let mut keys: HashMap<KeyId, PublicKey> = HashMap::new();
+    for &k in &s.caller_keys {
+        keys.insert(pool[k].public().key_id().clone(), pool[k].public().clone());
+    }
+    let links_str = links.to_str().unwrap().to_string();
+    let now = s.now;
+    let once = |text: &str, keys: &HashMap<KeyId, PublicKey>, links_str: &str, name: Option<&str>| -> String {
+        in_toto::verif_hooks::set_now(Some(now));
+        let res = guarded(std::panic::AssertUnwindSafe(|| {
+            let block: Metablock = serde_json::from_str(text).map_err(|e| format!("parse: {}", e))?;
+            in_toto_verify(&block, keys.clone(), links_str, name).map_err(|e| format!("{}", e))
+        }));
+        in_toto::verif_hooks::set_now(None);
+        match res {
+            Err(()) => "panic".to_string(),
+            Ok(Err(_)) => "err".to_string(),
+            Ok(Ok(mb)) => format!("ok {}", serde_json::to_value(&mb.metadata).map(|v| v.to_string()).unwrap_or_default()),
+        }
+    };
+    let alone = once(&text, &keys, &links_str, s.name.as_deref());
+    let barrier = std::sync::Barrier::new(threads);
+    let different: Vec<String> = std::thread::scope(|sc| {
+        let handles: Vec<_> = (0..threads)
+            .map(|_| {
+                sc.spawn(|| {
+                    let mut diff = vec![];
+                    for _ in 0..rounds {
+                        barrier.wait();
+                        let a = once(&text, &keys, &links_str, s.name.as_deref());
+                        if a != alone {
+                            diff.push(a);
+                        }
+                    }
+                    diff
+                })
+            })
+            .collect();
+        handles.into_iter().flat_map(|h| h.join().unwrap_or_else(|_| vec!["thread-panicked".to_string()])).collect()
+    });
+    (alone, different)
+}
+
 /// the next verifications read the system clock themselves (the clock hook is left unset)
 pub static REAL_CLOCK: std::sync::Mutex<bool> = std::sync::Mutex::new(false);
 
